@@ -6,13 +6,39 @@ use crate::gen::GenOpts;
 use crate::oracle;
 use crate::tape::Tape;
 
+/// one case in eight: a top level of require / GetService locals (module `genreq`) with sort_requires on, half of
+/// them with a range, so that the sort step is exercised together with everything downstream of it
+fn gen_requires_mix(t: &mut Tape, l: &mut Vec<&'static str>) -> Option<Case> {
+    use crate::lex::Syntax;
+    let syn = if t.chance(128) { Syntax::Luau } else { Syntax::Lua51 };
+    let mut cfg = crate::cfg::gen_cfg(t, syn);
+    cfg.sort_requires = !t.chance(30);
+    let src = crate::genreq::generate(t, syn, &crate::genreq::ReqOpts { ignores: true, regions: false }, l);
+    let mut case = Case::new(src, cfg);
+    l.push("requires-top-level");
+    if t.chance(128) {
+        let n = case.source.len();
+        let a = t.pick_wide(4096) * (n + 1) / 4096;
+        let b = t.pick_wide(4096) * (n + 1) / 4096;
+        case.range = Some((Some(a.min(b)), Some(a.max(b))));
+        l.push("range");
+    }
+    Some(case)
+}
+
 fn gen_c01(t: &mut Tape, l: &mut Vec<&'static str>) -> Option<Case> {
+    if t.chance(32) {
+        return gen_requires_mix(t, l);
+    }
     gen_standard(t, l, GenOpts::stmt_comments(), true, true)
 }
 fn gen_c02(t: &mut Tape, l: &mut Vec<&'static str>) -> Option<Case> {
     gen_standard(t, l, GenOpts::stmt_comments(), false, true)
 }
 fn gen_c03(t: &mut Tape, l: &mut Vec<&'static str>) -> Option<Case> {
+    if t.chance(32) {
+        return gen_requires_mix(t, l);
+    }
     gen_standard(t, l, GenOpts::stmt_comments(), true, true)
 }
 fn gen_c06(t: &mut Tape, l: &mut Vec<&'static str>) -> Option<Case> {
@@ -20,7 +46,7 @@ fn gen_c06(t: &mut Tape, l: &mut Vec<&'static str>) -> Option<Case> {
     // relative to the program's natural width so that wrapping boundaries are hit deliberately
     let mode = t.pick(8);
     let k = t.pick(64);
-    let opts = GenOpts { c_before_stmt: true, c_after_stmt_block: true, c_after_stmt_line: true, ..GenOpts::clean() };
+    let opts = GenOpts { c_before_stmt: true, c_after_stmt_block: true, c_after_stmt_line: true, c_block_end: true, ..GenOpts::clean() };
     let mut case = gen_standard(t, l, opts, true, false)?;
     if let Some(natural) = natural_width(&case) {
         let _ = mode;
@@ -193,7 +219,10 @@ fn gen_c09(t: &mut Tape, l: &mut Vec<&'static str>) -> Option<Case> {
         let src = crate::genreq::generate(t, syn, &crate::genreq::ReqOpts { ignores: false, regions: false }, l);
         Case::new(src, cfg)
     } else {
-        gen_standard(t, l, GenOpts::stmt_comments(), false, false)?
+        // a third of the programs carry ignore directives: an ignored statement is left as written whether the range
+        // covers it, cuts it or lies inside it
+        let ignores = t.chance(85);
+        gen_standard(t, l, GenOpts { ignores, ..GenOpts::stmt_comments() }, false, false)?
     };
     let syn = case.cfg.syntax;
     let ast = crate::engine::guarded(|| crate::norm::parse(&case.source, syn)).ok()?.ok()?;
@@ -298,7 +327,7 @@ pub static C09: E1Prop = E1Prop {
     thorough_cases: 2_000_000,
     use_t0: false,
     tape_len: 600,
-    assumptions: &["no ignore directives (their interplay with ranges is outside the statement of C09)", "the EOF trivia is only claimed unchanged when the text after the last affected statement contains a further token"],
+    assumptions: &["a statement carrying `-- stylua: ignore` (or lying in an ignore region) is left as written by whole-file formatting, so it is expected to be left as written under a range too, whether the range covers it or lies inside it", "the EOF trivia is only claimed unchanged when the text after the last affected statement contains a further token"],
     extra: None,
     exclude: Some(|c| if typed_local_cut_by_range(c) { Some("KF-C09-node-end-position") } else { None }),
     raw_oracle: None,
@@ -310,8 +339,24 @@ fn gen_c12(t: &mut Tape, l: &mut Vec<&'static str>) -> Option<Case> {
     let syn = if t.chance(90) { Syntax::Luau } else { Syntax::Lua51 };
     let mut cfg = crate::cfg::gen_cfg(t, syn);
     cfg.sort_requires = !t.chance(50);
-    let src = crate::genreq::generate(t, syn, &crate::genreq::ReqOpts { ignores: true, regions: false }, l);
+    let src = crate::genreq::generate(t, syn, &crate::genreq::ReqOpts { ignores: true, regions: true }, l);
     Some(Case::new(src, cfg))
+}
+
+/// Known finding KF-C12-ignore-region: requires inside an ignore region are re-ordered. Excluded: programs in which
+/// a require group of two or more members has a member inside a region (a region elsewhere in the file is in the domain).
+fn c12_region_finding(c: &Case) -> Option<&'static str> {
+    if !c.cfg.sort_requires || !c.source.contains("stylua: ignore start") {
+        return None;
+    }
+    let ast = crate::engine::guarded(|| crate::norm::parse(&c.source, c.cfg.syntax)).ok()?.ok()?;
+    let json = serde_json::to_value(ast.nodes()).ok()?;
+    let tops = crate::model::top_statements(&json);
+    if crate::model::region_touches_group(&tops) {
+        Some("KF-C12-ignore-region")
+    } else {
+        None
+    }
 }
 
 pub static C12: E1Prop = E1Prop {
@@ -323,9 +368,9 @@ pub static C12: E1Prop = E1Prop {
     thorough_cases: 2_000_000,
     use_t0: true,
     tape_len: 300,
-    assumptions: &["`-- stylua: ignore start/end` regions are excluded: require sorting does not honour them (known finding KF-C12-ignore-region, DESIGN D20)"],
+    assumptions: &["programs in which a require group of two or more members has a member inside a `-- stylua: ignore start/end` region are excluded: require sorting does not honour regions (known finding KF-C12-ignore-region, DESIGN D20); regions elsewhere in the file are in the domain"],
     extra: None,
-    exclude: Some(|c| if c.cfg.sort_requires && (c.source.contains("stylua: ignore start") || c.source.contains("stylua: ignore end")) { Some("KF-C12-ignore-region") } else { None }),
+    exclude: Some(c12_region_finding),
     raw_oracle: None,
     t2_cases: (0, 0),
 };
@@ -441,9 +486,9 @@ pub static C11: E1Prop = E1Prop {
     thorough_cases: 2_000_000,
     use_t0: true,
     tape_len: 600,
-    assumptions: &["programs containing `-- stylua: ignore` are skipped (ignored code is exempt)", "known finding KF-C11-parenthesised-single-argument: inputs with a call whose single argument is wrapped in redundant parentheses are excluded under None/NoSingle*"],
+    assumptions: &["programs containing `-- stylua: ignore` are skipped (ignored code is exempt)"],
     extra: None,
-    exclude: Some(oracle::c11_known_finding),
+    exclude: None,
     raw_oracle: None,
     t2_cases: (20_000, 400_000),
 };
@@ -552,7 +597,7 @@ pub static C07: E1Prop = E1Prop {
         "nesting depth of generated programs is bounded (<= ~12): stack exhaustion at depth ~100 (do-blocks) / ~500 (parentheses) is a recorded finding, observed only in child processes",
     ],
     extra: Some(c07_scaling),
-    exclude: None,
+    exclude: Some(|c| if oracle::parser_drops_tokens(&c.source, c.cfg.syntax) { Some("KF-C07-fullmoon-lossy-parse") } else { None }),
     raw_oracle: Some(|c, o, t| oracle::c07(c, o, t)),
     t2_cases: (20_000, 400_000),
 };
